@@ -1,10 +1,11 @@
 (* Props/C08.v -- entropy equals the von Neumann entropy of the reduced density matrix.  Property theorems only.
    PARTIAL: the reduced density matrix of a stabilizer state on region A is the stabilizer state of the subgroup supported inside A, whose entropy is
    |A| - dim(subgroup) = |A| - L + rank(generators restricted to the complement) =: entropy_ref.  That spectral fact is cited, not formalised (and tested against
-   dense eigenvalues for N<=4 by the correspondence check).  Proved here: the code computes entropy_ref (mixed branch: by definition, for all N; pure branch: by
-   complete enumeration of all generating sets of all pure states for N<=3), z2rank as implemented is the dimension of the row space, and the claimed invariances. *)
+   dense eigenvalues for N<=4 by the correspondence check).  Proved here: the code computes entropy_ref for EVERY N in both branches (mixed branch: by definition; pure
+   branch: Proofs/PureEntropyFacts.v via rank-nullity, symplectic complements and maximal isotropy; also by complete enumeration for N<=3), z2rank as implemented is the
+   dimension of the row space, and the claimed invariances. *)
 From PC Require Import Proofs.Z2Facts.
-From PC Require Import Model.Base Model.Pauli Model.Z2 Model.Tableau Model.Entropy Proofs.RankFacts Proofs.EntropyFinite.
+From PC Require Import Model.Base Model.Pauli Model.Z2 Model.Tableau Model.Entropy Proofs.RankFacts Proofs.EntropyFinite Proofs.LinAlgFacts Proofs.PureEntropyFacts.
 
 (* the mixed-state branch of the kernel is the reference formula, for every N *)
 Theorem C08_mixed_branch_is_reference : forall n gs m, length gs <> n -> entropy_of n gs m = entropy_ref gs m.
@@ -46,3 +47,23 @@ Theorem C08_generator_independent : forall gs1 gs2 m,
   entropy_ref gs1 m = entropy_ref gs2 m.
 Proof. exact entropy_ref_span_invariant_len. Qed.
 Print Assumptions C08_generator_independent.
+(* the PURE-state branch (half the GF(2) rank of the commutation matrix of the crossing generators restricted to the region) is the reference formula
+   for EVERY N, every region and every independent commuting generating set; in particular that rank is even *)
+Theorem C08_pure_branch_is_reference_all_N : forall n gs m, length m = n -> length gs = n -> (forall g, In g gs -> length g = n) ->
+  independent (2 * n) (map flat gs) -> (forall a b, In a gs -> In b gs -> acq a b = 0%Z) ->
+  entropy_of n gs m = entropy_ref gs m.
+Proof. exact pure_branch_general. Qed.
+Print Assumptions C08_pure_branch_is_reference_all_N.
+Theorem C08_commutation_rank_is_even : forall n (gs : list pstr) m, length m = n -> length gs = n -> (forall g, In g gs -> length g = n) ->
+  independent (2 * n) (map flat gs) -> (forall a b, In a gs -> In b gs -> acq a b = 0%Z) ->
+  Nat.even (z2rank (zmat_to_bmat (acq_mat (crossing_sub gs m)))) = true.
+Proof. exact crossing_gram_rank_even. Qed.
+Print Assumptions C08_commutation_rank_is_even.
+(* the linear algebra it rests on: rank-nullity and row rank = column rank for the rank function AS IMPLEMENTED, symplectic complements *)
+Theorem C08_rank_nullity : forall c c' f rows, linear c c' f -> rect c rows ->
+  exists d, has_dim c (fun v => in_span c rows v /\ f v = vzero c') d /\ (d + z2rank (map f rows) = z2rank rows)%nat.
+Proof. exact rank_nullity. Qed.
+Print Assumptions C08_rank_nullity.
+Theorem C08_row_rank_is_column_rank : forall c M, rect c M -> z2rank (transpose c M) = z2rank M.
+Proof. exact z2rank_transpose. Qed.
+Print Assumptions C08_row_rank_is_column_rank.
